@@ -23,8 +23,8 @@ EXPLANATION = ("should_notify / set_dev_notify are path-enumerated into guarded 
                "protocol is a typestate automaton run as an edge-sensitive forward dataflow over the inlined MIR of every "
                "driver entry point, with queue objects identified by field path and queue indices recovered from the "
                "constructors.")
-FLOORS = {'decision_fns': 1, 'add_sites': {'def': 11, 'alloc': 11, 'def-rel': 11, 'noalloc': 8}, 'notify_sites': {'def': 11, 'alloc': 11, 'def-rel': 11, 'noalloc': 8},
-          'entry_points': 20}
+FLOORS = {'decision_fns': 1, 'add_sites': {'*': 17, 'noalloc': 6}, 'notify_sites': {'*': 17, 'noalloc': 6}, 'entry_points': {'*': 300, 'noalloc': 150},
+          'protocol_entry_points': {'*': 17, 'noalloc': 6}}
 
 
 def queue_api(F, M):
